@@ -933,9 +933,9 @@ def connackMid (w : World) (k : Nat) (sp : Bool) (inb : List (Nat × Nat)) : Wor
 def connackEnd (w : World) (k : Nat) (sp : Bool) : World :=
   let w := { w with connReady := true, waitExp := 0,
                     connectReturned := if w.connectReturned.isNone then some sp else w.connectReturned }
-  let w := if w.initialized ∧ (¬ sp ∨ w.cfg.always) then pushTask w .resubscribe else w
-  let w := pushTask w .retry
-  { w with initialized := true, phase := .up k }
+  let w := if w.initialized ∧ (¬ sp ∨ w.cfg.always) ∧ ¬ w.stopped then pushTask w .resubscribe else w
+  let w := if w.stopped then w else pushTask w .retry
+  { w with initialized := true, phase := if w.stopped then .exited else .up k }
 
 theorem step_connackOk (w : World) (k : Nat) (sp : Bool) (inb : List (Nat × Nat))
     (h : w.phase = .connackGate k) :
@@ -1012,23 +1012,47 @@ structure ConnackEnd (k : Nat) (w w' : World) : Prop where
   stuck : w'.stuck = w.stuck
   accepted : w'.accepted = w.accepted
   conns : w'.conns = w.conns
-  phase : w'.phase = .up k
+  phase : w'.phase = if w.stopped then .exited else .up k
   broker : w'.broker = w.broker
   faults : w'.faults = w.faults
-  taskQ : w'.taskQ = w.taskQ ++ [.retry] ∨ w'.taskQ = w.taskQ ++ [.resubscribe, .retry]
+  taskQ : w'.taskQ = w.taskQ ∨ w'.taskQ = w.taskQ ++ [.retry] ∨
+    w'.taskQ = w.taskQ ++ [.resubscribe, .retry]
+  /-- Disconnect has not been called: the connection comes up and `Retry` is pushed -/
+  live : w.stopped = false → w'.phase = .up k ∧
+    (w'.taskQ = w.taskQ ++ [.retry] ∨ w'.taskQ = w.taskQ ++ [.resubscribe, .retry])
 
 theorem connackEnd_spec (w : World) (k : Nat) (sp : Bool) : ConnackEnd k w (connackEnd w k sp) := by
   unfold connackEnd
   simp only
-  split <;> constructor <;> simp [pushTask]
+  cases hst : w.stopped <;> split <;> constructor <;> simp_all [pushTask]
 
 theorem core_connackEnd (w : World) (k : Nat) (sp : Bool) : core (connackEnd w k sp) = core w := by
   have h := connackEnd_spec w k sp
   simp only [core, h.accepted, h.broker, h.retryQ, h.stuck]
-  cases h.taskQ with
-  | inl h => simp [h, List.filterMap_append, taskReq]
-  | inr h => simp [h, List.filterMap_append, taskReq]
+  rcases h.taskQ with h | h | h <;> simp [h, List.filterMap_append, taskReq]
 
+
+/-- `connectFailed` while Disconnect has not been called: the loop backs off and dials again -/
+theorem connectFailed_live (w : World) (k : Nat) (h : w.stopped = false) :
+    connectFailed w k =
+      { kill { w with connReady := true } k with
+        phase := .dialGate, waits := w.waits ++ [w.waitExp], waitExp := w.waitExp + 1,
+        dials := w.dials + 1 } := by
+  unfold connectFailed
+  simp only
+  rw [if_neg (by show ¬ w.stopped = true; simp [h])]
+  rfl
+
+theorem core_connectFailed (w : World) (k : Nat) : core (connectFailed w k) = core w := by
+  unfold connectFailed
+  simp only
+  split <;> rfl
+
+theorem connectFailed_sa (w : World) (k : Nat) :
+    (connectFailed w k).stuck = w.stuck ∧ (connectFailed w k).broker.acked = w.broker.acked := by
+  unfold connectFailed
+  simp only
+  split <;> exact ⟨rfl, rfl⟩
 
 theorem core_deliverInbound (w : World) (k m qos : Nat) : core (deliverInbound w k m qos) = core w := by
   unfold deliverInbound
@@ -1064,7 +1088,11 @@ theorem keepsAll_step (w : World) (e : Ev) : KeepsAll w (step w e) := by
       simp [taskReq, List.count_cons]
       omega
   | dialOk i => simp only [step]; split <;> first | exact KeepsAll.refl w | exact KeepsAll.ofCore rfl
-  | dialFail => simp only [step]; split <;> first | exact KeepsAll.refl w | exact KeepsAll.ofCore rfl
+  | dialFail =>
+    simp only [step]
+    split
+    · exact KeepsAll.refl w
+    · split <;> exact KeepsAll.ofCore rfl
   | connackOk sp inb =>
     simp only [step]
     split
@@ -1075,13 +1103,13 @@ theorem keepsAll_step (w : World) (e : Ev) : KeepsAll w (step w e) := by
   | connackRefused =>
     simp only [step]
     split
-    · exact KeepsAll.trans (KeepsAll.ofCore rfl) (keepsAll_progress _)
+    · exact KeepsAll.trans (KeepsAll.ofCore (core_connectFailed ..)) (keepsAll_progress _)
     · exact KeepsAll.refl w
   | connackNever =>
     simp only [step]
     split
     · split
-      · exact KeepsAll.trans (KeepsAll.ofCore rfl) (keepsAll_progress _)
+      · exact KeepsAll.trans (KeepsAll.ofCore (core_connectFailed ..)) (keepsAll_progress _)
       · exact KeepsAll.refl w
     · exact KeepsAll.refl w
   | peerClose =>
@@ -1488,7 +1516,8 @@ theorem inv_dialFail (w : World) (h : Inv w) : Inv (step w .dialFail) := by
   simp only [step]
   split
   · exact h
-  · exact ⟨h.stopped, h.stuck, h.cat, h.sil, h.nodisc, h.idle, h.dial, h.gate, h.up, h.nex⟩
+  · rw [if_neg (by simp [h.stopped])]
+    exact ⟨h.stopped, h.stuck, h.cat, h.sil, h.nodisc, h.idle, h.dial, h.gate, h.up, h.nex⟩
 
 theorem inv_inbound (w : World) (m qos : Nat) (h : Inv w) : Inv (step w (.inbound m qos)) := by
   simp only [step]
@@ -1545,15 +1574,13 @@ theorem inv_connackOk (w : World) (sp : Bool) (inb : List (Nat × Nat)) (h : Inv
       · have := m.sil h.sil
         unfold Sil at *; rw [e.faults, e.cfg]; exact this
       · have nd : Task.disconnect ∉ mid.taskQ := by rw [m.taskQ]; exact h.nodisc
-        cases e.taskQ with
-        | inl ht => rw [ht]; simp [nd]
-        | inr ht => rw [ht]; simp [nd]
+        rcases e.taskQ with ht | ht | ht <;> rw [ht] <;> simp [nd]
     have hq : w0.retryQ = [] ∨ Task.retry ∈ w0.taskQ := by
       right
-      cases e.taskQ with
+      cases (e.live (m.stopped.trans h.stopped)).2 with
       | inl ht => rw [ht]; simp
       | inr ht => rw [ht]; simp
-    have ⟨i1, i2, i3⟩ := progress_up k w0 hr e.phase hq
+    have ⟨i1, i2, i3⟩ := progress_up k w0 hr (e.live (m.stopped.trans h.stopped)).1 hq
     have fl : w0.faults.length ≤ w.faults.length := by rw [e.faults]; exact m.flen
     refine ⟨i1, Nat.le_trans i2 fl, fun _ => ?_, fun hn => absurd rfl (hn k)⟩
     cases i3 with
@@ -1567,10 +1594,15 @@ theorem inv_connackOk (w : World) (sp : Bool) (inb : List (Nat × Nat)) (h : Inv
 theorem inv_connectFailed (w : World) (k : Nat) (h : Inv w) (hp : w.phase = .connackGate k) :
     Inv (progress (connectFailed w k)) := by
   have g := h.gate k hp
-  have hr : Run k (connectFailed w k) := by
+  rw [connectFailed_live w k h.stopped]
+  have hr : Run k { kill { w with connReady := true } k with
+      phase := .dialGate, waits := w.waits ++ [w.waitExp], waitExp := w.waitExp + 1,
+      dials := w.dials + 1 } := by
     refine ⟨g.1, ?_, g.2.2.2.1, rfl, h.stuck, h.cat, h.sil, h.nodisc, h.stopped⟩
-    simp only [connectFailed, kill, setConn, List.length_set]; exact g.2.1
-  have hd : (getConn (connectFailed w k) k).alive = false := by
+    simp only [kill, setConn, List.length_set]; exact g.2.1
+  have hd : (getConn { kill { w with connReady := true } k with
+      phase := .dialGate, waits := w.waits ++ [w.waitExp], waitExp := w.waitExp + 1,
+      dials := w.dials + 1 } k).alive = false := by
     show (getConn (kill { w with connReady := true } k) k).alive = false
     rw [alive_kill]; rw [if_pos ⟨rfl, g.2.1⟩]
   exact (progress_dial k _ hr rfl hd).1
@@ -1742,6 +1774,12 @@ theorem progress_sa (w : World) (h : w.stuck = true) :
   rw [progress_stuck w h]
   exact ⟨(loopReact_sa w).1.trans h, (loopReact_sa w).2⟩
 
+theorem progress_connectFailed_sa (w : World) (k : Nat) (h : w.stuck = true) :
+    (progress (connectFailed w k)).stuck = true ∧
+      (progress (connectFailed w k)).broker.acked = w.broker.acked := by
+  have := progress_sa (connectFailed w k) ((connectFailed_sa w k).1.trans h)
+  exact ⟨this.1, this.2.trans (connectFailed_sa w k).2⟩
+
 theorem stuck_step (w : World) (e : Ev) (h : w.stuck = true) :
     (step w e).stuck = true ∧ (step w e).broker.acked = w.broker.acked := by
   cases e with
@@ -1752,7 +1790,11 @@ theorem stuck_step (w : World) (e : Ev) (h : w.stuck = true) :
     · exact ⟨h, rfl⟩
     · exact progress_sa _ h
   | dialOk i => simp only [step]; split <;> exact ⟨h, rfl⟩
-  | dialFail => simp only [step]; split <;> exact ⟨h, rfl⟩
+  | dialFail =>
+    simp only [step]
+    split
+    · exact ⟨h, rfl⟩
+    · split <;> exact ⟨h, rfl⟩
   | connackOk sp inb =>
     cases hp : w.phase with
     | connackGate k =>
@@ -1768,13 +1810,13 @@ theorem stuck_step (w : World) (e : Ev) (h : w.stuck = true) :
   | connackRefused =>
     simp only [step]
     split
-    · exact progress_sa _ h
+    · exact progress_connectFailed_sa w _ h
     · exact ⟨h, rfl⟩
   | connackNever =>
     simp only [step]
     split
     · split
-      · exact progress_sa _ h
+      · exact progress_connectFailed_sa w _ h
       · exact ⟨h, rfl⟩
     · exact ⟨h, rfl⟩
   | peerClose =>
